@@ -58,6 +58,16 @@ def _repr(mask, rep):
     return m
 
 
+def _same_values(got, exp):
+    """value equality that does not lose integers beyond 2^53 in a float comparison"""
+    got, exp = np.asarray(got), np.asarray(exp)
+    if got.shape != exp.shape:
+        return False
+    if exp.dtype.kind in "iu":
+        return [int(v) for v in got.ravel().tolist()] == [int(v) for v in exp.ravel().tolist()]
+    return bool(np.array_equal(got, exp))
+
+
 def check_compress(case, ctx):
     from finam.data import tools
 
@@ -66,6 +76,15 @@ def check_compress(case, ctx):
     ctx.event(f"mask-argument-as={rep}")
     n = int(np.prod(shape))
     vals = (np.arange(n, dtype=float) * 1.5 + 0.25).reshape(shape)
+    dt = case.get("dtype", "float64")
+    if dt == "int64":  # identifiers / nanosecond time stamps: not representable in float64
+        vals = (np.arange(n, dtype=np.int64) * 3 + (2**60 + 1)).reshape(shape)
+    elif dt == "float32":
+        vals = vals.astype(np.float32)
+    elif dt == "int16":
+        vals = (np.arange(n, dtype=np.int16) * 7 - 3).reshape(shape)
+    if dt != "float64":
+        ctx.event(f"data-dtype={dt}")
     mask = _mask_for(kind, shape, bits)
     ctx.event(f"mask={kind}")
     ctx.event(f"ndim={len(shape)}")
@@ -78,7 +97,7 @@ def check_compress(case, ctx):
     c = tools.to_compressed(x, order=order)
     cm = hs.magnitude(c)
     exp = vals.ravel(order=order)[~ma.ravel(order=order)]
-    if np.shape(cm) != exp.shape or not np.array_equal(np.ma.getdata(cm), exp):
+    if np.shape(cm) != exp.shape or not _same_values(np.ma.getdata(cm), exp):
         ctx.violation("to_compressed", f"to_compressed != x.ravel({order})[~mask.ravel({order})] for shape {shape} mask {kind}")
         return
     if np.ma.is_masked(cm):
@@ -89,7 +108,7 @@ def check_compress(case, ctx):
     if kind != "nomask":
         plain = tools.UNITS.Quantity(vals.copy(), "m") if quant else vals.copy()
         c2 = tools.to_compressed(plain, order=order, mask=_repr(mask, rep))
-        if not np.array_equal(np.ma.getdata(hs.magnitude(c2)), exp):
+        if not _same_values(np.ma.getdata(hs.magnitude(c2)), exp):
             ctx.violation("to_compressed-maskarg", f"to_compressed(plain, mask=<{rep}>) differs from masked variant")
     r = tools.from_compressed(c, shape, order=order, mask=mask if kind == "nomask" else _repr(mask, rep))
     rm = hs.magnitude(r)
@@ -99,7 +118,7 @@ def check_compress(case, ctx):
     if not np.array_equal(np.ma.getmaskarray(rm), ma):
         ctx.violation("from_compressed-mask", f"mask not restored for shape {shape} order {order} mask {kind}")
         return
-    if not np.array_equal(np.ma.getdata(rm)[~ma], vals[~ma]):
+    if not _same_values(np.ma.getdata(rm)[~ma], vals[~ma]):
         ctx.violation("from_compressed-values", f"unmasked values not at their original positions: shape {shape} order {order}")
     if quant and str(getattr(r, "units", None)) != "m":
         ctx.violation("from_compressed-units", f"units lost: {getattr(r, 'units', None)}")
@@ -111,6 +130,9 @@ def enum_compress(tier):
         for order, kind, quant in itertools.product("CF", ("nomask", "false", "partial", "full"), (False, True)):
             for rep in (REPRS if kind == "partial" else ["bool"]):
                 yield {"shape": list(shape), "order": order, "mask": kind, "quant": quant, "bits": 0x5A5A3C3C96969, "repr": rep}
+            if kind in ("partial", "false"):
+                for dt in ("int64", "float32", "int16"):
+                    yield {"shape": list(shape), "order": order, "mask": kind, "quant": quant, "bits": 0x5A5A3C3C96969, "repr": "bool", "dtype": dt}
 
 
 compress_st = st.fixed_dictionaries({
@@ -120,6 +142,7 @@ compress_st = st.fixed_dictionaries({
     "quant": st.booleans(),
     "bits": st.integers(0, 2**60 - 1),
     "repr": st.sampled_from(["bool", "bool"] + REPRS),
+    "dtype": st.sampled_from(["float64", "float64", "float64", "int64", "float32", "int16"]),
 })
 
 
